@@ -5,6 +5,7 @@ import NixModel.Lemmas.UnitsCompound
 import NixModel.Lemmas.UnitsSound
 import NixModel.Lemmas.UnitsScalingEq
 import NixModel.Lemmas.UnitsTotal
+import NixModel.Lemmas.UnitsFuel
 
 /-!
 # C09 — SI unit recognition and scaling are exact and consistent
@@ -337,6 +338,16 @@ theorem sanitizer_micro_spellings (sp u w : Str) (hsp : sp ∈ microSpellings) (
     split (sanitizer (sp ++ u ++ w)) = (['u'], u, w.drop 1) :=
   ⟨sanitizer_micro sp u w hsp hu hw, (sanitizer_micro_atom sp u w hsp hu hw).1,
     (sanitizer_micro_atom sp u w hsp hu hw).2⟩
+
+/-! ## The model's fuel is never exhausted -/
+
+/-- `str.replace` and the loop of `split_compound` are unbounded in Python and get `length + 1` steps in the
+model; for ALL inputs any larger fuel gives the same result, so the `fuel = 0` exits are reached by no input
+(the fix-point loop of `sanitizer` reaches its fix point: `sanitizer_clean`; `is_compound`: `compound_exact`) -/
+theorem model_fuel_never_exhausted (old new s : Str) (n : Nat) (h : s.length < n) :
+    replaceFuel n old new s = replace old new s ∧
+    Compound.splitCompoundLoop n s ' ' [] = Compound.splitCompound s :=
+  ⟨replace_fuel old new s n h, splitCompound_fuel s n h⟩
 
 /-! Non-vacuity: the hypotheses are met by concrete table entries. -/
 example : (['m'] ∈ optPrefixes) ∧ (['m', 'o', 'l'] ∈ units) ∧ (['^', '-', '2'] ∈ powerTexts) := by
